@@ -113,7 +113,8 @@ fn main() {
     }
 
     // known findings
-    let kf_txt = std::fs::read_to_string("/verif/known_findings.json").unwrap_or_else(|_| "{\"findings\":[]}".into());
+    let vroot = std::env::var("VERIF_ROOT").unwrap_or_else(|_| "/verif".into());
+    let kf_txt = std::fs::read_to_string(format!("{}/known_findings.json", vroot)).unwrap_or_else(|_| "{\"findings\":[]}".into());
     let kf: Value = serde_json::from_str(&kf_txt).expect("known_findings.json");
     let known: Vec<(String, String)> = kf["findings"]
         .as_array()
@@ -127,7 +128,7 @@ fn main() {
 
     let mut new_violations = 0;
     let mut known_hits = 0;
-    std::fs::create_dir_all("/verif/replays").ok();
+    std::fs::create_dir_all(format!("{}/replays", vroot)).ok();
     for (sig, v) in &ctx.violations {
         if let Some((_, what)) = known.iter().find(|(s, _)| s == sig) {
             println!("KNOWN-FINDING: property={} {} {} (seen {}x this run)", id, sig, what, v.count);
@@ -136,7 +137,7 @@ fn main() {
         }
         new_violations += 1;
         let slug: String = sig.chars().map(|c| if c.is_ascii_alphanumeric() { c } else { '_' }).collect();
-        let path = format!("/verif/replays/{}-{}-s{}.json", id, slug, seed);
+        let path = format!("{}/replays/{}-{}-s{}.json", vroot, id, slug, seed);
         let rep = json!({"property": id, "signature": sig, "monitor": v.monitor, "seed": seed, "tier": tier, "index": v.index,
             "what": v.what, "count": v.count, "case": v.case});
         std::fs::write(&path, serde_json::to_string_pretty(&rep).unwrap()).ok();
